@@ -393,6 +393,30 @@ func runC12(e *Env, r *core.Run) {
 	m2, _ := sr25519.NewMiniSecretKeyFromBytes(mini2)
 	kp2 := m2.ExpandUniform().KeyPair()
 	pkb2 := marshalOwned(kp2.PublicKey().MarshalBinary())
+	// Equal is value equality of what the encodings carry: a decoded copy is equal, another key is not
+	{
+		skA, e1 := sr25519.NewSecretKeyFromBytes(skb)
+		skB, e2 := sr25519.NewSecretKeyFromBytes(skb)
+		pkA, e3 := sr25519.NewPublicKeyFromBytes(pkb)
+		mA, e4 := sr25519.NewMiniSecretKeyFromBytes(mini2)
+		if e1 != nil || e2 != nil || e3 != nil || e4 != nil {
+			r.Fail("encoding", "roundtrip-decode", "decoding the run's own marshalled keys failed")
+			return
+		}
+		sk2 := kp2.SecretKey()
+		if !skA.Equal(skB) || skA.Equal(sk2) || sk2.Equal(skA) || !pkA.Equal(skA.PublicKey()) || pkA.Equal(kp2.PublicKey()) || !mA.Equal(m2) {
+			r.Fail("encoding", "equal", "Equal disagrees with the encodings: sk==copy %v, sk==other %v, pk==derived %v, pk==other %v, mini==copy %v",
+				skA.Equal(skB), skA.Equal(sk2), pkA.Equal(skA.PublicKey()), pkA.Equal(kp2.PublicKey()), mA.Equal(m2))
+			return
+		}
+		// same scalar, another nonce half: a different secret key
+		nb := clone(skb)
+		nb[32+t.W(32)] ^= 1 << uint(t.W(8))
+		if skN, err := sr25519.NewSecretKeyFromBytes(nb); err == nil && (skN.Equal(skA) || !skN.PublicKey().Equal(pkA)) {
+			r.Fail("encoding", "equal", "a secret key with another nonce half compares equal (or its public key differs)")
+			return
+		}
+	}
 	// mismatched key pair must be refused
 	if t.W(3) == 0 {
 		bad := append(clone(skb), pkb2...)
